@@ -1,6 +1,6 @@
 SPECIFICATION Spec
 CONSTANTS Threads = {1,2,3}
-  N = 2
+  N = 3
   N2 = 2
   Rounds = 3
   Variant = "None"
